@@ -196,6 +196,7 @@ func c18Moment(w *W, st ref.Stamp, class string) {
 func c18Run(w *W, c Case) {
 	y := c.A[0]
 	w.Class(fmt.Sprintf("century%02d", y/100))
+	historyTouch(w, y)
 	by := isBoundaryYear(y)
 	tbl := calendar.NewSolarFromYmd(y, 6, 15).GetLunar().GetJieQiTable()
 	lo := ref.Stamp{Y: y, M: 1, D: 1}.Secs()
